@@ -242,25 +242,47 @@ def lean_failures(prop, leanres):
 
 # ------------------------------------------------------------------ Go side
 
+def _alt_repo():
+    return REPO.resolve() != Path("/repo")
+
+
+def _repo_tag():
+    import hashlib
+    return "" if not _alt_repo() else "-" + hashlib.sha1(str(REPO.resolve()).encode()).hexdigest()[:8]
+
+
 def go_prepare():
-    """Make sure harness/go.sum matches /repo's (the harness has no dependency of its own)."""
+    """Make sure go.sum matches the repo's (the harness has no dependency of its own).
+    With VERIF_REPO=<other tree> a go.mod replacing the module by that tree is generated under .work
+    and used through -modfile, so mutants can be checked in a scratch worktree without touching /repo.
+    Returns extra `go build` arguments."""
     src = REPO / "go.sum"
-    dst = HARNESS / "go.sum"
+    if not _alt_repo():
+        dst = HARNESS / "go.sum"
+        if src.exists():
+            data = src.read_bytes()
+            if not dst.exists() or dst.read_bytes() != data:
+                dst.write_bytes(data)
+        return []
+    d = WORK / ("alt" + _repo_tag())
+    d.mkdir(parents=True, exist_ok=True)
+    gomod = (HARNESS / "go.mod").read_text().replace("=> /repo", "=> " + str(REPO.resolve()))
+    (d / "go.mod").write_text(gomod)
     if src.exists():
-        data = src.read_bytes()
-        if not dst.exists() or dst.read_bytes() != data:
-            dst.write_bytes(data)
+        (d / "go.sum").write_bytes(src.read_bytes())
+    return ["-modfile=" + str(d / "go.mod")]
 
 
 def go_build(cmd, race=False, tags="verif", timeout=1200):
-    """Build harness/cmd/<cmd> against /repo's working tree. Returns (ok, binary_path, log)."""
+    """Build harness/cmd/<cmd> against the repo's working tree. Returns (ok, binary_path, log)."""
     BIN.mkdir(parents=True, exist_ok=True)
-    out = BIN / (cmd + ("-race" if race else ""))
-    with flock("go-" + cmd + ("-race" if race else "")):
-        go_prepare()
+    name = cmd + ("-race" if race else "") + _repo_tag()
+    out = BIN / name
+    with flock("go-" + name):
+        extra = go_prepare()
         if out.exists():
             out.unlink()          # never run a stale binary
-        args = ["go", "build", "-tags", tags, "-o", str(out)]
+        args = ["go", "build"] + extra + ["-tags", tags, "-o", str(out)]
         if race:
             args.append("-race")
         args.append("./cmd/" + cmd)
